@@ -20,7 +20,7 @@ ASSUMPTIONS = ['the option file is read back by splitting it into shell words (o
 
 BASES = {
     'dipole': ['-f', '14.2', '-w', '6,0,0,0,0,0,5,.002', '-w', '4,0,0,5,1,2,6,.001', '--excitation-pulse=3'],
-    'mixed': ['-f', '14.2', '-a', '5,5,1,0,120,.002', '--helix=2,8,1,0.5,.002,.3,.3', '-w', '9,3,-0.5,0,0.8660254037844387,-1.5,0.5,1.6,.002',
+    'mixed': ['-f', '14.2', '-a', '5,5,1,0,120,.002', '--helix=2,8,1,0.5,.002,.3,.25,.2,.15', '-w', '9,3,-0.5,0,0.8660254037844387,-1.5,0.5,1.6,.002',
               '--geo-translate=1.01,0,0,3,2', '--geo-rotate=1.02,0,0,40,2', '--excitation-pulse=2,5'],
     'ground': ['-f', '7.1', '-w', '4,0,0,0,0.5,0.5,3,.002', '-w', '4,0.5,0.5,3,3,1,4,.002', '--medium=13,0.005,0,5', '--medium=3,0.001,-1',
                '--radial-count=8', '--radial-radius=0.001', '--excitation-pulse=1'],
